@@ -96,8 +96,12 @@ func (c *allOfConstraintCompiler) extendWith(node ischema.Node, name string) {
 	)
 	schem := c.processType(name)
 
+	// The inherited nodes refer to the unnamed types of the type they come from.
+	// Its named types are its own business: the root has its own of those names.
 	for n, t := range schem.TypesList() {
-		c.foundTypes[n] = t
+		if len(n) != 0 && n[0] == '#' {
+			c.foundTypes[n] = t
+		}
 	}
 
 	fromObject, ok := schem.RootNode().(*ischema.ObjectNode)
